@@ -17,8 +17,10 @@ RULE = ('case = (corpus of 2..10 (value recipe, settings) pairs drawn from all g
         'repetitions, some of them on a freshly rebuilt equal value instead of the long-lived object, with allocator perturbations (allocate/free junk) between calls). Oracle: for each (value object, '
         'settings) every text in the history is identical (recursion-marker ids masked); a canonical deep snapshot of '
         'every input (types, contents, order, default_factory, maxlen, comment wrappers, sharing pattern) taken before '
-        'equals the one taken after. Additionally (custom phase) a fixed corpus slice is printed FIRST in a fresh '
-        'interpreter (one subprocess per value, same PYTHONHASHSEED) and compared with the warm in-process text. '
+        'equals the one taken after. Histories also contain failing calls (a printer returns a non-document, pformat raises) whose outcome is '
+        'ignored. Additionally (custom phase) fresh-interpreter histories - each corpus value printed FIRST, and printed '
+        'right after an interferer (unparseable struct sequence, IntEnum member, Enum member, a failing call, lazily '
+        'registered types, a commented long string) - are compared with the warm in-process text (one subprocess each). '
         'non-trivial = some value was printed >= 3 times with >= 1 value of another type printed in between; distinct by '
         'case hash')
 ASSUMPTIONS = ['cross-interpreter comparison leaves out nothing in this corpus (no same-type incomparable keys are generated)',
@@ -116,6 +118,9 @@ def fixed_cases():
     order = list(range(n)) + list(range(n - 1, -1, -1)) + [1000 + i for i in range(n)] + [i for i in range(n) if i % 2] + [1000 + i for i in range(n - 1, -1, -1)]
     yield {'items': items, 'order': order, 'junk': [0, 3, 50, 7, 1000]}
     yield {'items': [[MIXED_KEYS, {'sort_dict_keys': True}], [['int', 1], {}]], 'order': [0, 1] * 40, 'junk': [1, 17, 333, 5, 64, 2]}   # D17
+    # D22: an unparseable struct sequence printed first must not change how later ones print
+    yield {'fresh_interpreter_history': [['ok', ['std', 'struct_time_x', [['opaque', 1]] + [['int', j] for j in range(1, 9)]], {}],
+                                         ['ok', ['std', 'struct_time', [2020, 1, 2, 3, 4, 5, 3, 2, 0]], {}]]}
 
 
 def strategy(tier):
@@ -128,7 +133,16 @@ def strategy(tier):
     graph = st.builds(lambda k, e: ['graph', {'kinds': k, 'edges': [e[0], e[1]], 'root': 0, 'root2': 1}],
                       st.lists(st.sampled_from(['list', 'dict', 'tuple']), min_size=2, max_size=2),
                       st.lists(st.lists(st.integers(-3, 1), max_size=2), min_size=2, max_size=2))
+    flaky_leaf = st.integers(0, 3).map(lambda k: ['flaky', k])
+    flaky_tree = st.recursive(st.one_of(flaky_leaf, S['leaf']), lambda ch: st.one_of(
+        st.lists(ch, min_size=1, max_size=3).map(lambda xs: ['list', xs]),
+        st.lists(st.tuples(S['r_str'], ch).map(list), min_size=1, max_size=2).map(lambda kv: ['dict', kv]),
+        st.lists(ch, min_size=1, max_size=2).map(lambda xs: ['tuple', xs])), max_leaves=6)
+    weird_st = st.tuples(st.sampled_from([['opaque', 1], ['str', 'x'], ['float', 'nan'], ['list', []]]), st.integers(0, 8)).map(
+        lambda p: ['std', 'struct_time_x', [p[0] if j == p[1] else ['int', j + 1] for j in range(9)]])
     item = st.one_of(
+        st.tuples(flaky_tree, cfg).map(list),
+        st.tuples(weird_st, st.just({})).map(list),
         st.tuples(gens.any_value(S, comments=True), cfg).map(list),
         st.tuples(gens.any_value(S, comments=True), cfg).map(list),
         st.tuples(mixed, cfg.map(lambda c: dict(c, sort_dict_keys=True))).map(list),
@@ -140,13 +154,34 @@ def strategy(tier):
     def cases(draw):
         items = draw(st.lists(item, min_size=2, max_size=10))
         idx = st.integers(0, len(items) - 1)
-        order = draw(st.lists(st.one_of(idx, idx, idx.map(lambda i: 1000 + i)), min_size=3, max_size=30))
+        order = draw(st.lists(st.one_of(idx, idx, idx.map(lambda i: 1000 + i), idx.map(lambda i: 2000 + i)), min_size=3, max_size=30))
         junk = draw(st.lists(st.sampled_from([0, 1, 2, 7, 50, 333, 1000]), max_size=6))
         return {'items': items, 'order': order, 'junk': junk}
     return cases()
 
 
+def oracle_cold(case):
+    """replay of one fresh-interpreter history"""
+    hist = case['fresh_interpreter_history']
+    mode, r, cfg = hist[-1]
+    for _ in range(2):
+        p = values.pp(build_any(r), **cfg)
+    warm = IDMASK.sub('with id=N>', p.text) if p.exc is None else 'EXC ' + type(p.exc).__name__
+    script = COLD_SCRIPT % {'repo': core.REPO_DIR, 'verif': core.VERIF_DIR}
+    proc = subprocess.run([sys.executable, '-c', script, json.dumps(hist)], capture_output=True, text=True,
+                          env=dict(os.environ, PYTHONHASHSEED='0'), timeout=120)
+    if proc.returncode != 0:
+        raise core.HarnessError('cold subprocess failed: %s' % proc.stderr[-800:])
+    cold = json.loads(proc.stdout)
+    if cold != warm:
+        return core.viol('cold-vs-warm-differs', 'history %s in a fresh interpreter ends with\n%s\nwarm text of the last value\n%s' % (
+            core.canonical(hist)[:400], cold[:500], warm[:500]))
+    return core.ok(True, ['cold'])
+
+
 def oracle(case):
+    if 'fresh_interpreter_history' in case:
+        return oracle_cold(case)
     objs = [build_any(r) for r, _ in case['items']]
     cfgs = [dict(c) for _, c in case['items']]
     try:
@@ -157,7 +192,18 @@ def oracle(case):
     positions = collections.defaultdict(list)
     junk = case.get('junk') or [0]
     hold = []
+    from .. import faults
     for step, i in enumerate(case['order']):
+        if i >= 2000:
+            # a failing call in between: the printer of every Flaky object returns a non-document, pformat raises
+            # (if the item holds one); its outcome is not compared, later calls must be unaffected
+            i = i % 1000 % len(objs)
+            faults.Flaky.broken = True
+            try:
+                values.pp(objs[i], **cfgs[i])
+            finally:
+                faults.Flaky.broken = False
+            continue
         rebuilt = i >= 1000     # print a freshly built, equal value instead of the long-lived object
         i = i % 1000 % len(objs)
         if rebuilt and ('"nan"' in core.canonical(case['items'][i][0]) or cfgs[i].get('sort_dict_keys')):
@@ -200,19 +246,39 @@ import sys, json, warnings, re
 sys.path.insert(0, %(repo)r); sys.path.insert(1, %(verif)r)
 warnings.simplefilter('ignore')
 from ppv.checks import c19
+from ppv import faults
 from prettyprinter import pformat
-r, cfg = json.loads(sys.argv[1])
-v = c19.build_any(r)
-print(json.dumps(c19.IDMASK.sub('with id=N>', pformat(v, **cfg))))
+jobs = json.loads(sys.argv[1])
+out = None
+for mode, r, cfg in jobs:
+    v = c19.build_any(r)
+    if mode == 'fail':
+        faults.Flaky.broken = True
+    try:
+        out = c19.IDMASK.sub('with id=N>', pformat(v, **cfg))
+    except Exception as e:
+        out = 'EXC ' + type(e).__name__
+    finally:
+        faults.Flaky.broken = False
+print(json.dumps(out))
 '''
+
+# values printed BEFORE the target in a fresh interpreter: each warms / poisons some piece of global state
+INTERFERERS = [
+    ('ok', ['std', 'struct_time_x', [['opaque', 1]] + [['int', j] for j in range(1, 9)]], {}),          # D22
+    ('ok', ['sub', 'int', 'enum', ['int', 1]], {}),
+    ('ok', ['std', 'enum', 'Color', 'RED'], {}),
+    ('fail', ['list', [['dict', [[['str', 'k'], ['list', [['flaky', 1]]]]]]]], {}),
+    ('ok', ['list', [['std', 'path', 'PurePosixPath', '/a/b'], ['std', 'uuid', '0' * 32], ['std', 'partial', 'partial', 'len', [], []]]], {}),
+    ('ok', ['dict', [[['str', 'k'], ['cmt', 'c', ['str', 'lorem ipsum dolor sit amet consectetur adipiscing elit sed do']]]]], {'width': 20}),
+]
 
 
 def custom_phase(tier, seed, st, procs):
-    """each corpus value printed FIRST in a fresh interpreter vs. warm in-process text"""
+    # fresh-interpreter histories: [target] and [interferer, target] vs. the warm in-process text of the target
     script = COLD_SCRIPT % {'repo': core.REPO_DIR, 'verif': core.VERIF_DIR}
     env = dict(os.environ, PYTHONHASHSEED='0')
-    corpus = COLD_CORPUS if tier == 'thorough' else [c for i, c in enumerate(COLD_CORPUS)]
-    # warm everything first in this process (twice, in two orders)
+    corpus = COLD_CORPUS
     warm = {}
     for rnd in (0, 1):
         seq = list(enumerate(corpus))
@@ -220,26 +286,35 @@ def custom_phase(tier, seed, st, procs):
             seq.reverse()
         for i, (r, cfg) in seq:
             p = values.pp(build_any(r), **cfg)
-            warm[i] = IDMASK.sub('with id=N>', p.text) if p.exc is None else 'EXC ' + repr(p.exc)
-    running = []
+            warm[i] = IDMASK.sub('with id=N>', p.text) if p.exc is None else 'EXC ' + type(p.exc).__name__
+    jobs = []
     for i, (r, cfg) in enumerate(corpus):
-        running.append((i, subprocess.Popen([sys.executable, '-c', script, json.dumps([r, cfg])], stdout=subprocess.PIPE,
-                                            stderr=subprocess.PIPE, env=env, text=True)))
+        jobs.append((i, None, [['ok', r, cfg]]))
+    targets = range(len(corpus)) if tier == 'thorough' else [0, 1, 5, 12, 16, 17, 23]
+    for k, (mode, ir, icfg) in enumerate(INTERFERERS):
+        for i in targets:
+            r, cfg = corpus[i]
+            jobs.append((i, k, [[mode, ir, icfg], ['ok', r, cfg]]))
+    running = []
+    for job in jobs:
+        running.append((job, subprocess.Popen([sys.executable, '-c', script, json.dumps(job[2])], stdout=subprocess.PIPE,
+                                              stderr=subprocess.PIPE, env=env, text=True)))
         if len(running) >= procs:
-            _collect(running, corpus, warm, st)
+            _collect(running, warm, st)
             running = []
-    _collect(running, corpus, warm, st)
-    return {'fresh_interpreter_cases': len(corpus)}
+    _collect(running, warm, st)
+    return {'fresh_interpreter_histories': len(jobs)}
 
 
-def _collect(running, corpus, warm, st):
-    for i, proc in running:
+def _collect(running, warm, st):
+    for (i, k, hist), proc in running:
         out, err = proc.communicate(timeout=120)
-        case = {'cold': corpus[i][0], 'cfg': corpus[i][1]}
+        case = {'fresh_interpreter_history': hist}
         if proc.returncode != 0:
             raise core.HarnessError('cold subprocess failed: %s' % err[-800:])
         cold = json.loads(out)
         if cold != warm[i]:
-            st.record(case, core.viol('cold-vs-warm-differs', 'first print in a fresh interpreter\n%s\nwarm\n%s' % (cold[:500], warm[i][:500])), 'cold')
+            st.record(case, core.viol('cold-vs-warm-differs', 'history %s in a fresh interpreter ends with\n%s\nwarm text of the last value\n%s' % (
+                core.canonical(hist)[:400], cold[:500], warm[i][:500])), 'cold')
         else:
-            st.record(case, core.ok(True, ['cold']), 'cold')
+            st.record(case, core.ok(True, ['cold' if k is None else 'cold-after-interferer']), 'cold')
